@@ -203,6 +203,17 @@ CHECKS['C16'] = (
     'output = API value + newline. Partial: argparse and file I/O are trusted; handlers other than get-basis/get-refs are validated, not modelled.',
     BASE_NOTE + 'argparse.', '6/C16')
 
+CHECKS['C10'] = (
+    'Lean 4 theorems: ownership model of the use_copy discipline (a pipeline whose first step copies never writes to the caller\'s object and returns a '
+    'private one) applied by decide to every writer pipeline, use_copy guard and call site regenerated from the source + dynamic twin (deep snapshot and '
+    'identity-disjointness) on the real functions',
+    'Proof (on the model / over regenerated facts): first_copy_protects, first_inplace_mutates, writers_protect_caller (all 29 writers), '
+    'use_copy_functions_guarded (all 15 use_copy functions of manip/sort copy at entry or delegate), inplace_call_sites, inner_calls_in_place. '
+    'Validation: every public function of manip, sort, writers (all formats), compare/diff, validator, convert_references and the list arguments of the '
+    'retrieval API — argument deeply equal to its snapshot afterwards and no dict/list of the result is an object of the argument. Partial: the full '
+    'heap-level ownership analysis of DESIGN 6/C10 (effect skeletons of every function) is not built; aliasing inside function bodies is covered by the dynamic twin only.',
+    BASE_NOTE + 'CPython id()/deepcopy; only dict and list objects are tracked.', '6/C10')
+
 NOT_YET = {}
 
 
